@@ -527,6 +527,21 @@ class FnTranslator:
             return guards, '[%s]' % '; '.join(parts), tw['ty']
         if isinstance(n, ast.List) and not n.elts:
             refuse('empty list literal without a declared type', n)
+        if isinstance(n, ast.List):
+            # [a, b, ..]: elements of one type, evaluated left to right
+            guards, parts, tys = [], [], []
+            for e in n.elts:
+                if isinstance(e, ast.Starred):
+                    refuse('starred list element', n)
+                g, t, ty = self.tr(e, env)
+                if t is None or ty in ('opaque', '*'):
+                    refuse('list element of type %s: %s' % (ty, ast.unparse(e)), e)
+                guards += g
+                parts.append(t)
+                tys.append(ty)
+            if len(set(tys)) != 1:
+                refuse('list literal with elements of different types: %s' % ast.unparse(n), n)
+            return guards, '[%s]' % '; '.join(parts), 'list ' + tys[0]
         refuse('expression %s' % type(n).__name__, n)
 
     def wrap(self, guards, env, ctx, k):
